@@ -883,6 +883,7 @@ def describe(prop):
             "latest admissible stage: model-description faults must be rejected by the model constructor; the 'likewise rejected' faults by the first stage that computes with the malformed item",
             "any exception type is accepted as a rejection",
             "negative conditional_on counts as a non-existent variable",
+            'data-made malformations (narrow data, coinciding values) are judged only on pipelines where a fresh model rejects them',
         ],
         "probes": ["second-request-after-rejected-fit"],
     }
